@@ -133,39 +133,31 @@ func authClosure(all map[string]gmsl.PDU, state []gmsl.PDU) []gmsl.PDU {
 	return out
 }
 
-// expectedKept is the oracle for CheckStateResponse.
+// expectedKept is the oracle for CheckStateResponse. The same event may be listed under state and under auth events:
+// each copy is judged on its own signatures, and an event "arrived with verified signatures" when at least one copy did.
+// A copy is kept when its signatures are good and the event is allowed by those of its auth events that arrived with
+// verified signatures or that the provider supplies.
 func expectedKept(items []respItem, mode providerMode, pool map[string]gmsl.PDU) map[string]bool {
-	// the same event may be listed under state and under auth events: the library judges
-	// per event ID, so an ID is good only if every copy of it carries good signatures
-	badID := map[string]bool{}
-	for _, it := range items {
-		if it.pdu != nil && !it.sigGood {
-			badID[it.pdu.EventID()] = true
-		}
-	}
 	good := map[string]gmsl.PDU{}
 	for _, it := range items {
-		if it.pdu != nil && !badID[it.pdu.EventID()] {
+		if it.pdu != nil && it.sigGood {
 			good[it.pdu.EventID()] = it.pdu
 		}
 	}
 	kept := map[string]bool{}
-	for _, it := range items {
-		if it.pdu == nil || badID[it.pdu.EventID()] {
-			continue
-		}
+	for id, p := range good {
 		var auth []gmsl.PDU
-		for _, a := range it.pdu.AuthEventIDs() {
-			if p, ok := good[a]; ok {
-				auth = append(auth, p)
+		for _, a := range p.AuthEventIDs() {
+			if ap, ok := good[a]; ok {
+				auth = append(auth, ap)
 			} else if mode == provReturns {
-				if p, ok := pool[a]; ok {
-					auth = append(auth, p)
+				if ap, ok := pool[a]; ok {
+					auth = append(auth, ap)
 				}
 			}
 		}
-		if allowedBy(it.pdu, auth) {
-			kept[it.pdu.EventID()] = true
+		if allowedBy(p, auth) {
+			kept[id] = true
 		}
 	}
 	return kept
@@ -376,17 +368,18 @@ func c14StateResponses(c *mon.Ctx, r *gen.Rand, sc *simScenario, other *simScena
 							continue
 						}
 						id := it.pdu.EventID()
-						if outIDs[id] && !want[id] {
+						wantCopy := want[id] && it.sigGood // this copy: good signatures, and the event is allowed
+						if outIDs[id] && !wantCopy {
 							why := "fails the auth check against its available auth events"
 							if !it.sigGood {
 								why = "has an invalid signature"
 							}
 							c.Failf("stateresponse:returns-bad-"+kind+"-event:"+faultKinds(desc), "CheckStateResponse returned %s event %s (%s) which %s; faults %v, provider %s", kind, id, it.pdu.Type(), why, desc, provNames[mode])
 						}
-						if !outIDs[id] && want[id] {
+						if !outIDs[id] && wantCopy {
 							c.Failf("stateresponse:drops-good-"+kind+"-event:"+faultKinds(desc), "CheckStateResponse dropped %s event %s (%s) although its signature is valid and its available auth events allow it; faults %v, provider %s", kind, id, it.pdu.Type(), desc, provNames[mode])
 						}
-						if !want[id] {
+						if !wantCopy {
 							dropped++
 						}
 					}
